@@ -165,9 +165,7 @@ def number(block, ctr, ind, out, mode="analysis"):
                 e = number(s[2], ctr, ind + 1, out, mode)
             res.append((k, b, e))
         elif k == "whiletrue":
-            out.append(f"{pad}while True:")
-            if mode == "exec":
-                out.append(f"{pad}    _tick()")
+            out.append(f"{pad}while True:" if mode == "analysis" else f"{pad}while _tick():")
             b = number(s[1], ctr, ind + 1, out, mode)
             res.append((k, b))
         elif k == "with":
@@ -486,7 +484,10 @@ EXEC_PRELUDE = '''\
 class _Stop(BaseException): pass
 def _tick():
     _S["steps"] += 1
-    if _S["steps"] > 60: raise _Stop()
+    if _S["steps"] > 60:
+        _S["stopped"] = True
+        raise _Stop()
+    return True
 def _next():
     _tick()
     s = _S["script"]; i = _S["i"]; _S["i"] = i + 1
@@ -495,7 +496,8 @@ def cond(): return bool(_next() & 1)
 def seq(): return [0] * (_next() % 3)
 def g():
     if _next() & 1: raise ValueError("scripted")
-def _use(line, val): _S["seen"].add((line, val))
+def _use(line, val):
+    if not _S["stopped"]: _S["seen"].add((line, val))
 class sup:
     def __enter__(self): pass
     def __exit__(self, t, v, tb): return t is not None and issubclass(t, Exception)
@@ -510,12 +512,13 @@ def executed_pairs(block, rng, nscripts):
     -> set of (use line, definition literal or 0 when unbound) actually observed."""
     nb, lines = render(block, "f", mode="exec")
     ns = {}
-    state = {"steps": 0, "script": [], "i": 0, "seen": set()}
+    state = {"steps": 0, "script": [], "i": 0, "seen": set(), "stopped": False}
     ns["_S"] = state
     exec(EXEC_PRELUDE + "\n".join(lines) + "\n", ns)
     for _ in range(nscripts):
         state["steps"] = 0
         state["i"] = 0
+        state["stopped"] = False
         state["script"] = [rng.randrange(0, 6) for _ in range(rng.randint(1, 12))]
         try:
             ns["f"]()
@@ -530,7 +533,7 @@ def executed_pairs(block, rng, nscripts):
 
 LOWER_FINDINGS = {
     "C09-dead-code-after-break": "a statement follows break/continue in its block: the dead code rewrites the scope already registered as a loop exit, so a definition live at the break is lost after the loop",
-    "C09-jump-through-finally": "break/continue inside try/except/else of a try that has a finally clause: the loop exit scope is taken before the finally block, so assignments made in finally are missing after the loop",
+    "C09-jump-through-finally": "break/continue leaving a try statement that has a finally clause: the loop exit scope is taken before the finally block (assignments made in finally are missing after the loop), and a break/continue inside the finally block reaches the loop exit only from the no-exception state",
 }
 UPPER_FINDING = ("C09-imprecise-reaching", "definitions reported that reach the use along no path (second collecting visit of a loop body starts from the state after the loop; dead-code assignments reach handlers; finally block visited on a path that cannot continue)")
 
@@ -570,7 +573,7 @@ def free_jump(block):
 def no_jump_through_finally(block):
     for s in block:
         if s[0] == "try" and s[4]:
-            if free_jump(s[1]) or any(free_jump(h) for h in s[2]) or free_jump(s[3]):
+            if free_jump(s[1]) or any(free_jump(h) for h in s[2]) or free_jump(s[3]) or free_jump(s[4]):
                 return False
         if not all(no_jump_through_finally(b) for b in subblocks(s)):
             return False
@@ -682,7 +685,7 @@ def run(tier: str, replay: str | None = None):
         for b in load_corpus():
             blocks.append(b)
             origin.append("corpus")
-        n_rand, n_tidy, n_small = (420, 420, 160) if tier == "quick" else (6000, 6000, 484)
+        n_rand, n_tidy, n_small = (900, 900, 300) if tier == "quick" else (7000, 7000, 484)
         for b in small_exhaustive(n_small):
             blocks.append(b)
             origin.append("small")
@@ -787,7 +790,9 @@ def run(tier: str, replay: str | None = None):
                     known_seen[lclass] += 1
                 else:
                     failing.append((i, u, "lower bound: a definition that reaches the use along a strict path is not reported", sorted(got), {"strict": sorted(s_), "missing": sorted(s_ - got)}))
-            if not got <= l_:
+            if not l_:
+                hist["verdict"]["use unreachable even in the liberal CFG (upper bound not applicable)"] += 1
+            elif not got <= l_:
                 if up_ok is not None and not up_ok and (model is None or m_uses.get(u, set()) == got):
                     known_seen[UPPER_FINDING[0]] += 1
                 else:
